@@ -141,6 +141,10 @@ class LogProvider:
         self.log.append((self.who, n))
         if n not in self.cache:
             t = true_terms(self.cls, n)
+            if EXTRA == "zeros" and not t:
+                # a provider may hand out explicit zero entries (a Counter is not stripped of them): "no objects" then is a
+                # non-empty mapping
+                t = Counter({tuple(0 for _ in self.cls.extra_parameters): 0})
             self.cache[n] = (t, dict(t))
         return self.cache[n][0]
 
